@@ -147,8 +147,8 @@ class Frame:
         self.count = 0
 
     def check(self, where: str, pos=None):
-        new = snapshot()
-        with self.lock:
+        with self.lock:     # snapshots are taken and compared in one order, also when threads check concurrently
+            new = snapshot()
             self.count += 1
             for k, v in self.cur.items():
                 if k not in new:
@@ -205,8 +205,6 @@ def build_engine(unit, frame=None, res=None, pos=None):
     if frame:
         frame.check(f"components of {unit['id']}", pos)
     eng = get_builder(skills, env.character.action_stat).build_operation_engine()
-    if frame:
-        frame.check(f"engine build of {unit['id']}", pos)
     return eng
 
 
